@@ -17,6 +17,7 @@ EXTENDS Integers, Sequences, FiniteSets, TLC
 
 CONSTANTS OpA, OpB,     \* operation names, see Segs
           Guarded,      \* removeFromInFlightPQ checks that its slot still holds the message (fix 1); FALSE = as first found
+          ExitGuard,    \* REQ/TOUCH hold exitMutex.R from before the pop to the end and refuse when exiting (fix 3)
           PerMessage    \* Empty takes the discarded messages off their owners' counters (fix 2); FALSE = zeroes all counters
 VARIABLES ifm,     \* in-flight map: id -> owner connection
           heap,    \* deadline heap as a sequence of ids (position = index)
@@ -31,9 +32,12 @@ VARIABLES ifm,     \* in-flight map: id -> owner connection
           pc,      \* actor -> next segment (1..), 0 = done
           hold,    \* actor -> the message its operation popped / took ("" = none)
           sched,   \* history: sequence of actors, one entry per executed segment
-          dropped  \* what Empty's reset discarded (id -> owner), for its counter adjustment
+          dropped, \* what Empty's reset discarded (id -> owner), for its counter adjustment
+          exiting, \* the channel's exit flag (graceful shutdown: Channel.Close)
+          disk,    \* ids written to the channel's backend by flush (what a restart will find)
+          lost     \* ids a goroutine gave up on because the channel was exiting
 
-vars == <<ifm, heap, hgen, midx, q, cnt, fin, gone, lock, crashed, pc, hold, sched, dropped>>
+vars == <<ifm, heap, hgen, midx, q, cnt, fin, gone, lock, crashed, pc, hold, sched, dropped, exiting, disk, lost>>
 Actors == {"A", "B"}
 Op(a) == IF a = "A" THEN OpA ELSE OpB
 K1 == 1
@@ -41,7 +45,7 @@ K2 == 2
 
 \* number of segments of each operation (= yield points + 1)
 Segs(op) == CASE op = "FIN" -> 3 [] op = "REQ0" -> 4 [] op = "TOUCH" -> 4 [] op = "SCAN" -> 3
-              [] op = "DELIVER" -> 4 [] op = "EMPTY" -> 3 [] op = "FIN2" -> 3 [] OTHER -> 0
+              [] op = "DELIVER" -> 4 [] op = "EMPTY" -> 3 [] op = "FIN2" -> 3 [] op = "EXIT" -> 4 [] OTHER -> 0
 
 Init == /\ ifm = ("m1" :> K1)
         /\ heap = <<"m1">> /\ hgen = 0
@@ -51,6 +55,7 @@ Init == /\ ifm = ("m1" :> K1)
         /\ fin = {} /\ gone = {} /\ lock = "" /\ crashed = FALSE
         /\ pc = [a \in Actors |-> 1] /\ hold = [a \in Actors |-> ""]
         /\ sched = <<>> /\ dropped = <<>>
+        /\ exiting = FALSE /\ disk = {} /\ lost = {}
 
 \* ---- heap primitives (internal/pqueue + in_flight_pqueue.go) ----------
 RemoveAt(s, i) == [j \in 1..(Len(s) - 1) |-> IF j < i THEN s[j] ELSE s[j + 1]]
@@ -81,6 +86,9 @@ Adv(a)    == pc' = [pc EXCEPT ![a] = @ + 1]
 Log(a)    == sched' = Append(sched, a)
 
 \* ---- operations, one disjunct per segment ------------------------------
+\* Channel.exit holds exitMutex (write) from its first statement to its return
+ExitInside == \E b \in Actors : Op(b) = "EXIT" /\ pc[b] \in {2, 3, 4}
+
 \* FIN m1 by k1  (FIN2: the same FIN arriving from k2 -- wrong connection)
 Fin(a, k) ==
   \/ /\ pc[a] = 1
@@ -92,21 +100,27 @@ Fin(a, k) ==
   \/ /\ pc[a] = 3 /\ cnt' = [cnt EXCEPT ![k] = @ - 1] /\ Done(a)
      /\ UNCHANGED <<ifm, heap, hgen, midx, q, fin, gone, lock, crashed, hold>>
 
+\* exitMutex.R held by a REQ/TOUCH in progress (fix 3) -- Channel.exit cannot set its flag meanwhile
+AnswerInside == ExitGuard /\ \E b \in Actors : Op(b) \in {"REQ0", "TOUCH"} /\ pc[b] \in {2, 3, 4}
+
 Req0(a) ==
-  \/ /\ pc[a] = 1
-     /\ IF MapPop("m1", K1) THEN ifm' = Without(ifm, "m1") /\ hold' = [hold EXCEPT ![a] = "m1"] /\ Adv(a)
-                            ELSE UNCHANGED <<ifm, hold>> /\ Done(a)
+  \/ /\ pc[a] = 1 /\ (ExitGuard => ~ExitInside)
+     /\ IF (ExitGuard /\ exiting) \/ ~MapPop("m1", K1) THEN UNCHANGED <<ifm, hold>> /\ Done(a)      \* E_REQ_FAILED
+        ELSE ifm' = Without(ifm, "m1") /\ hold' = [hold EXCEPT ![a] = "m1"] /\ Adv(a)
      /\ UNCHANGED <<heap, hgen, midx, q, cnt, fin, gone, lock, crashed>>
   \/ /\ pc[a] = 2 /\ HeapRemove("m1") /\ Adv(a) /\ UNCHANGED <<ifm, hgen, q, cnt, fin, gone, lock, hold>>
-  \/ /\ pc[a] = 3 /\ q' = q \cup {"m1"} /\ hold' = [hold EXCEPT ![a] = ""] /\ Adv(a)
+  \/ /\ pc[a] = 3 /\ (~ExitGuard => ~ExitInside)       \* as first found: exitMutex.R only here, "if c.Exiting() return error"
+     /\ IF ~ExitGuard /\ exiting THEN lost' = lost \cup {"m1"} /\ q' = q /\ Done(a)     \* the popped message is dropped
+                                 ELSE q' = q \cup {"m1"} /\ lost' = lost /\ Adv(a)
+     /\ hold' = [hold EXCEPT ![a] = ""]
      /\ UNCHANGED <<ifm, heap, hgen, midx, cnt, fin, gone, lock, crashed>>
   \/ /\ pc[a] = 4 /\ cnt' = [cnt EXCEPT ![K1] = @ - 1] /\ Done(a)
      /\ UNCHANGED <<ifm, heap, hgen, midx, q, fin, gone, lock, crashed, hold>>
 
 Touch(a) ==
-  \/ /\ pc[a] = 1
-     /\ IF MapPop("m1", K1) THEN ifm' = Without(ifm, "m1") /\ hold' = [hold EXCEPT ![a] = "m1"] /\ Adv(a)
-                            ELSE UNCHANGED <<ifm, hold>> /\ Done(a)
+  \/ /\ pc[a] = 1 /\ (ExitGuard => ~ExitInside)
+     /\ IF (ExitGuard /\ exiting) \/ ~MapPop("m1", K1) THEN UNCHANGED <<ifm, hold>> /\ Done(a)
+        ELSE ifm' = Without(ifm, "m1") /\ hold' = [hold EXCEPT ![a] = "m1"] /\ Adv(a)
      /\ UNCHANGED <<heap, hgen, midx, q, cnt, fin, gone, lock, crashed>>
   \/ /\ pc[a] = 2 /\ HeapRemove("m1") /\ Adv(a) /\ UNCHANGED <<ifm, hgen, q, cnt, fin, gone, lock, hold>>
   \/ /\ pc[a] = 3
@@ -120,8 +134,8 @@ Touch(a) ==
 Owner(m) == IF m = "m1" THEN K1 ELSE K2      \* msg.clientID of the message the scan popped
 \* processInFlightQueue(t) with everything due
 Scan(a) ==
-  \/ /\ pc[a] = 1
-     /\ IF heap = <<>> THEN UNCHANGED <<heap, midx, hold>> /\ Done(a)
+  \/ /\ pc[a] = 1 /\ ~ExitInside                          \* exitMutex.RLock for the whole function
+     /\ IF heap = <<>> \/ exiting THEN UNCHANGED <<heap, midx, hold>> /\ Done(a)
         ELSE /\ hold' = [hold EXCEPT ![a] = heap[1]]
              /\ heap' = Tail(heap)
              /\ midx' = [m \in DOMAIN midx |-> IF m = heap[1] THEN [midx[m] EXCEPT !.i = -1]
@@ -172,11 +186,24 @@ Empty(a) ==
   \/ /\ pc[a] = 3 /\ gone' = gone \cup q /\ q' = {} /\ lock' = "" /\ Done(a)
      /\ UNCHANGED <<ifm, heap, hgen, midx, cnt, fin, crashed, hold, dropped>>
 
+\* Channel.Close during nsqd.Exit: flag, close clients, flush memory queue, flush in-flight (+deferred), close backend
+ScanInside == \E b \in Actors : Op(b) = "SCAN" /\ pc[b] \in {2, 3}       \* holds exitMutex.R
+Exit(a) ==
+  \* nsqd.Exit closes the connections first; their IOLoops call RemoveClient, which holds exitMutex.R while it
+  \* waits for the channel lock -- so the flag cannot be set while an Empty holds that lock
+  \/ /\ pc[a] = 1 /\ ~ScanInside /\ ~AnswerInside /\ lock = "" /\ exiting' = TRUE /\ Adv(a) /\ UNCHANGED <<q, disk>>
+  \/ /\ pc[a] = 2 /\ lock = "" /\ Adv(a) /\ UNCHANGED <<q, disk, exiting>>    \* c.RLock(): client connections closed
+  \/ /\ pc[a] = 3 /\ disk' = disk \cup q /\ q' = {} /\ Adv(a) /\ UNCHANGED exiting
+  \/ /\ pc[a] = 4 /\ disk' = disk \cup DOMAIN ifm /\ Done(a) /\ UNCHANGED <<q, exiting>>
+
 Step(a) == /\ pc[a] # 0 /\ ~crashed /\ Log(a)
            /\ Op(a) # "EMPTY" => dropped' = dropped
+           /\ Op(a) # "EXIT" => exiting' = exiting /\ disk' = disk
+           /\ (Op(a) # "REQ0" \/ pc[a] # 3) => lost' = lost
+           /\ Op(a) = "EXIT" => UNCHANGED <<ifm, heap, hgen, midx, cnt, fin, gone, lock, crashed, hold>>
            /\ CASE Op(a) = "FIN" -> Fin(a, K1) [] Op(a) = "FIN2" -> Fin(a, K2) [] Op(a) = "REQ0" -> Req0(a)
                 [] Op(a) = "TOUCH" -> Touch(a) [] Op(a) = "SCAN" -> Scan(a) [] Op(a) = "DELIVER" -> Deliver(a)
-                [] Op(a) = "EMPTY" -> Empty(a)
+                [] Op(a) = "EMPTY" -> Empty(a) [] Op(a) = "EXIT" -> Exit(a)
 
 Next == \E a \in Actors : Step(a)
 Spec == Init /\ [][Next]_vars
@@ -203,6 +230,11 @@ OnePlace == Terminal /\ ~crashed =>
 
 \* printed for the replayer: the schedule and the predicted observable outcome of every maximal behaviour
 Outcome == <<"SCHED", OpA, OpB, sched, crashed, Cardinality(DOMAIN ifm), Cardinality(q), cnt[K1], cnt[K2],
-             Cardinality(HeapSet), "m1" \in fin>>
+             Cardinality(HeapSet), "m1" \in fin, "m1" \in disk, "m2" \in disk>>
+
+\* C05: whatever was acknowledged and not finished when the channel closed is on disk for the restart
+Exited == \E a \in Actors : Op(a) = "EXIT"
+RestartKeepsUnfinished == (Terminal /\ ~crashed /\ Exited) => \A m \in {"m1", "m2"} : m \in fin \/ m \in disk
+FinishedStayGone == (Terminal /\ ~crashed /\ Exited) => TRUE
 Emit == Terminal => PrintT(Outcome)
 =============================================================================
